@@ -72,6 +72,7 @@ fn rerun(w: &Value) -> Option<Outcome> {
         "c11_numflag" => Some(c11::run_numflag(w["input"]["key"].as_str()?, w["input"]["n"].as_u64()?)),
         "known" => known::run(w["input"]["case"].as_str()?),
         "c09_lexeme" => Some(c09::run_lexeme(w["input"]["tok_id"].as_u64()? as u32, w["input"]["start"].as_u64()? as usize, w["input"]["len"].as_u64()? as usize, w["input"]["faulty"].as_bool()?)),
+        "c09_stack" => Some(c09::run_stack(w["input"]["input"].as_str()?)),
         "c09_anchor" => Some(c09::run_anchor(w["input"]["text"].as_str()?)),
         "c20_numbering" => Some(c20::run_numbering(w["input"]["grammar"].as_str()?)),
         "c20_u8" => Some(c20::run_u8(w["input"]["kind"].as_str()?, w["input"]["n"].as_u64()? as usize)),
@@ -104,7 +105,7 @@ fn search(unit: &str, tag: &str, tier: &str) -> Option<Value> {
         "c05_files" | "c06_files" => c06::search(tag, tier).or_else(|| c07::search(tag, tier)),
         "c07_files" => c07::search(tag, tier).or_else(|| c06::search(tag, tier)),
         "c08_files" => c08::search(tag, tier),
-        "c09_files" => c11::search(tag, tier).or_else(|| c09::search(tier)),
+        "c09_files" => c09::search_stack(tier).or_else(|| c11::search(tag, tier)).or_else(|| c09::search(tier)),
         "c10_files" => c10::search(tag, tier).or_else(|| c10r::search(tier)),
         "c11_files" => c11::search(tag, tier),
         "c12_files" => c12::search("C12.header", tier).or_else(|| c12::search_lex(tier)).or_else(|| c12::search_yacc(tier)),
@@ -135,7 +136,8 @@ fn search(unit: &str, tag: &str, tier: &str) -> Option<Value> {
         "c08_entry" if tag.starts_with("C07") || tag.starts_with("C04") => c07::search(tag, tier),
         "c08_reduce" | "c08_tree" | "c08_entry" => c08::search(tag, tier),
         "c11_flags" if tag.starts_with("C12") => c12::search_lex(tier),
-        "c11_decl" | "c11_lex" | "c09_lexer" | "c11_flags" | "c11_access" => c11::search(tag, tier),
+        "c09_lexer" => c09::search_stack(tier).or_else(|| c11::search(tag, tier)),
+        "c11_decl" | "c11_lex" | "c11_flags" | "c11_access" => c11::search(tag, tier),
         "c15_cache" => c15::search_codegen(tier),
         "c10_grammar" | "c10_validate" | "c10_prods" | "c10_rule" | "c10_ast" | "c10_access" => if tag.starts_with("C15") { c15::search(tag, tier) } else { c10::search(tag, tier).or_else(|| c10r::search(tier)) },
         "c03_expect" => c03::search(tag, tier),
